@@ -319,6 +319,11 @@ fn check_result<T: LabelType>(af: &AAFramework<T>, exp: Option<&Expected>, multi
 
 /// returns (zone tag, accepted?) or a violation (what, message)
 pub fn check_input(fmt: Format, bytes: &[u8], probe_tokens: &[&str]) -> Result<(u8, bool), (String, String)> {
+    let note = || format!("{} reader on input {:?}", fmt.name(), String::from_utf8_lossy(bytes));
+    crate::mem::with_note(&note, || check_input_inner(fmt, bytes, probe_tokens))
+}
+
+fn check_input_inner(fmt: Format, bytes: &[u8], probe_tokens: &[&str]) -> Result<(u8, bool), (String, String)> {
     let zone = match fmt {
         Format::Iccma => classify_iccma(bytes),
         Format::Apx => classify_apx(bytes),
@@ -750,6 +755,33 @@ fn sweep_grammar(fmt: Format, n: usize, probes: &[&str]) -> Acc {
         .reduce(Acc::default, Acc::merge)
 }
 
+/// one line of every length up to ~220 bytes with one character of every UTF-8 width at every offset,
+/// in each syntactic position of the format (error paths quote / truncate / index the offending line)
+fn sweep_long_lines(fmt: Format, probes: &[&str]) -> Acc {
+    let templates: Vec<(&str, &str, &str)> = match fmt {
+        // (text before the line, line prefix, line suffix)
+        Format::Iccma => vec![("", "", ""), ("p af 2\n", "", ""), ("p af 2\n", "# ", ""), ("", "# ", ""), ("", "p af ", ""), ("p af 2\n", "1 ", ""), ("p af 2\n1 2\n", "", " 1")],
+        Format::Apx => vec![("", "", ""), ("arg(a).\n", "", "."), ("", "arg(", ")."), ("arg(a).\n", "att(a,", ")."), ("arg(a).\n", "att(", ",a)."), ("arg(a).\n", "% ", ""), ("", "arg(a)", "")],
+    };
+    let wides = ["", "\u{e9}", "\u{20ac}", "\u{1f600}"];
+    let ks: Vec<usize> = (0..=130).collect();
+    ks.par_iter()
+        .map(|&k| {
+            let mut acc = Acc::default();
+            for (before, pre, suf) in &templates {
+                for w in &wides {
+                    for m in [0usize, 1, 80] {
+                        let line = format!("{}{}{}{}{}", pre, "x".repeat(k), w, "y".repeat(m), suf);
+                        acc.feed(fmt, "long lines", format!("{}{}\n", before, line).as_bytes(), probes);
+                        acc.feed(fmt, "long lines", format!("{}{}", before, line).as_bytes(), probes);
+                    }
+                }
+            }
+            acc
+        })
+        .reduce(Acc::default, Acc::merge)
+}
+
 pub fn run(tier: Tier) -> i32 {
     let mut rep = Report::new("C13", tier);
     let thorough = tier == Tier::Thorough;
@@ -774,6 +806,7 @@ pub fn run(tier: Tier) -> i32 {
         run_one(format!("{}: every single-byte / token / line edit of a 12-file corpus", fmt.name()), sweep_corruptions(fmt, probes), &mut total);
         run_one(format!("{}: all byte strings of length <= 2, and of length 3 over 40 bytes", fmt.name()), sweep_short_bytes(fmt, probes), &mut total);
         run_one(format!("{}: every well-formed file of U(<={}) in a menu of layouts", fmt.name(), 3), sweep_grammar(fmt, 3, probes), &mut total);
+        run_one(format!("{}: one line of every length <= 130+ with one character of each UTF-8 width at every offset, in 7 syntactic positions", fmt.name()), sweep_long_lines(fmt, probes), &mut total);
     }
     rep.states = total.inputs;
     rep.transitions = total.inputs;
@@ -789,7 +822,7 @@ pub fn run(tier: Tier) -> i32 {
         rep.n_violations += n - 1;
         rep.add_violation(v);
     }
-    rep.rule = "every input of five exhaustively enumerated finite families per format is read by the real reader; states = transitions = inputs; three-zone oracle: strict grammar => Ok with exactly the declared arguments (declaration order, ids) and attacks; the ill-formedness classes the property lists => Err; everything else: no requirement on accept/reject; in all zones no panic and a self-consistent result; read_arg_from_str probed on every accepted framework; distinct_nontrivial = inputs in the must-accept or must-reject zone".into();
+    rep.rule = "every input of six exhaustively enumerated finite families per format is read by the real reader; states = transitions = inputs; three-zone oracle: strict grammar => Ok with exactly the declared arguments (declaration order, ids) and attacks; the ill-formedness classes the property lists => Err; everything else: no requirement on accept/reject; in all zones no panic and a self-consistent result; read_arg_from_str probed on every accepted framework; distinct_nontrivial = inputs in the must-accept or must-reject zone".into();
     rep.bounds = json!({"token_string_length": ktok, "line_sequence_length": klin, "declared_sizes": "<= 10"});
     rep.assumptions = vec!["the zone classifier (harness) is the specification of well-/ill-formedness; CRLF, irregular spacing, duplicate declarations, exotic number spellings are deliberately unspecified".into()];
     rep.finish()
